@@ -160,6 +160,10 @@ class PeptideVariantGraph():
         while len(sites) > 0:
             s, r = sites.popleft()
             shifted_site = s - shift
+            if shifted_site >= len(node.seq.seq):
+                # A site at the very end of the node is already a node
+                # boundary; splitting there would create an empty node.
+                break
             if r:
                 r = (r[0] - shift, r[1] - shift)
             shift = s
